@@ -9,6 +9,7 @@ from . import lexstate as LX
 
 HOLE = "\ue000"
 OPQ = "\ue001"
+VARIANT = "\ue002"  # first character of a line that is an alternative of the line before it (exactly one of them is generated)
 
 _KEYWORDS = {"if", "else", "elif", "for", "in", "is", "not", "and", "or", "return", "def", "class", "import", "from", "as",
              "try", "except", "finally", "raise", "with", "while", "pass", "break", "continue", "lambda", "None", "True",
@@ -160,13 +161,25 @@ def scan_lines(lines: list[str], opaque: list[frozenset[str]], holes: list[tuple
             emit(kind, tok, sc, ln, raw)
         deferred.clear()
 
+    # alternatives of one line exclude each other: a name bound by one of them is not bound when another one is evaluated, so the
+    # BINDs of all of them are recorded after the READs of all of them
+    held = {i for i, x in enumerate(lines, 1) if i < len(lines) and lines[i].startswith(VARIANT)}  # lines followed by an alternative
+    before_alternatives: tuple = ()
     for ln, raw in enumerate(lines, 1):
+        # every alternative of a line starts in the state (brackets, strings, scope) in which the first one started
+        if raw.startswith(VARIANT):
+            raw = raw.lstrip(VARIANT)
+            if before_alternatives:
+                depth, state, in_def_sig, cur, seg_start = before_alternatives
+        elif ln in held:
+            before_alternatives = (depth, state, in_def_sig, cur, seg_start)
         code, state, fexprs = strip_strings(raw, state)
         if not code.strip() and not fexprs:
             continue
         indent = len(code) - len(code.lstrip(" "))
         if depth == 0 and in_def_sig is None and code.strip():
-            flush()
+            if (ln - 1) not in held:
+                flush()
             while cur is not root and indent <= cur.indent:
                 cur = cur.parent  # type: ignore[assignment]
         toks = [m.group(0) for m in tok_re.finditer(code)]
@@ -188,8 +201,13 @@ def scan_lines(lines: list[str], opaque: list[frozenset[str]], holes: list[tuple
                 emit("BIND", toks[k0], cur, ln, raw)
                 cls_, nm, _s, _r = classify(toks[k0])
                 label = nm.replace("\x00", "<H>") if cls_ != "ignore" else "<class>"
-                new = Scope(label, "class" if first_tok == "class" else "function", indent, cur)
-                cur.children.append(new)
+                kind_ = "class" if first_tok == "class" else "function"
+                last = cur.children[-1] if cur.children else None
+                if (ln - 1) in held and last is not None and (last.name, last.kind, last.indent) == (label, kind_, indent):
+                    new = last  # an alternative header of the definition just opened: one scope, not two
+                else:
+                    new = Scope(label, kind_, indent, cur)
+                    cur.children.append(new)
                 if first_tok == "class":
                     for tk in toks[k0 + 1:]:
                         if ident_start.match(tk):
@@ -298,7 +316,7 @@ def scan_lines(lines: list[str], opaque: list[frozenset[str]], holes: list[tuple
                 tk = m.group(0)
                 if ident_start.match(tk) and not fx[:m.start()].rstrip().endswith("."):
                     emit("READ", tk, sc, ln, raw)
-        if depth == 0:
+        if depth == 0 and ln not in held:
             flush()
     flush()
     return root
